@@ -28,6 +28,12 @@ claimed = {
  "C16": dict(level="exploration", technique="property-based testing (rapid): generated buffers x cursor positions x kill commands by name x numeric arguments x kill sequences through real pty sessions; algebraic oracle kill;yank = id and register == removed range",
    text="Every kill command is reached by name on a private key sequence, one command per read so each intermediate buffer and the kill register are observed through the public API; oracle: one contiguous range removed, register equals it, immediate yank restores, most recent kill is what yank inserts.",
    note=RIG_NOTE + " One known finding (word kills on multi-byte text) excluded by construction and reported from a regress case.", ref="DESIGN.md §3 C16"),
+ "C17": dict(level="exploration", technique="property-based testing (rapid), differential: d<motion> vs y<motion> (and v<motion>d / v<motion>y) from identical generated states in two fresh pty sessions",
+   text="For generated buffers, cursor positions, motions/text objects and counts, the register after delete must equal the register after yank, yank must leave the buffer unchanged and delete must remove exactly one contiguous occurrence of that text. Differential oracle needs no model of the motions themselves.",
+   note=RIG_NOTE + " Keys one per read.", ref="DESIGN.md §3 C17"),
+ "C18": dict(level="exploration", technique="property-based testing (rapid), metamorphic: session [B0, K, K] typed vs session [B0, record K, replay once], emacs and vi macro styles",
+   text="Generated key scripts K (printable, control, ESC-prefixed, CSI, quoted-insert, vi command keys) are typed twice in one session and recorded+replayed in another; final buffer, cursor, keymap and returned line must agree. Metamorphic oracle; cases where K itself is not deterministic are discarded and counted.",
+   note=RIG_NOTE + " One known finding (lone ESC followed by a key forming an ESC-prefixed binding) excluded by construction and reported from a regress case.", ref="DESIGN.md §3 C18"),
  "C19": dict(level="exploration", technique="property-based testing (rapid) + bounded-exhaustive enumeration: Unescape(Escape(s)) round trip over all single runes 0x00-0xFF, all default bindings, significant triples and random sequences; native fuzzing in the thorough tier",
    text="Round-trip oracle Unescape(Escape(s)) == s and Unescape(EscapeMacro(s)) == s, exhaustive for length 1 over 0x00-0xFF, for every sequence bound in a default shell and for triples of notation-significant runes, random beyond; plus agreement of Unescape with an independent decoder of the documented notation.",
    note="Codec part of the property (pure API). The dump-commands part is checked through the terminal rig once registered (see DESIGN.md).", ref="DESIGN.md §3 C19"),
